@@ -48,7 +48,19 @@ func (env *Env) with(name string, v SVal) *Env {
 }
 
 func (env *Env) sv(t Term, typ types.Type) SVal {
-	return SVal{T: t, Typ: typ, Sort: env.u.D.SortOf(typ)}
+	v := SVal{T: t, Typ: typ, Sort: env.u.D.SortOf(typ)}
+	// type invariant of slices read from the heap in a specification: ground reads get the
+	// well-formedness fact (0 <= len <= cap ...), like the values the code itself loads
+	if v.Sort == "Slice" && strings.HasPrefix(t, "(select ") && !strings.Contains(t, "!q") {
+		if env.u.wfSeen == nil {
+			env.u.wfSeen = map[Term]bool{}
+		}
+		if !env.u.wfSeen[t] {
+			env.u.wfSeen[t] = true
+			env.u.Fact(app("wfslice", t))
+		}
+	}
+	return v
 }
 
 func ghost(t Term, sort string) SVal { return SVal{T: t, Sort: sort} }
@@ -409,7 +421,7 @@ func (env *Env) deref(v SVal) SVal {
 		return SVal{T: v.T, Typ: p.Elem(), Sort: env.u.D.SortOf(p.Elem()), AtRef: true}
 	}
 	h, hs := env.u.D.CellHeap(p.Elem())
-	return env.sv(sel(env.cur.heap(h, hs), v.T), p.Elem())
+	return env.sv(hsel(env.u, env.cur.heap(h, hs), v.T), p.Elem())
 }
 
 // field selects a field by name, following embedded structs and pointers.
@@ -455,7 +467,7 @@ func (env *Env) field(v SVal, name string) SVal {
 				cur = SVal{T: app("sub", cur.T, intLit(int64(i))), Typ: f.Type, Sort: d.SortOf(f.Type), AtRef: true}
 			} else {
 				h, hs := d.FieldHeap(t, i)
-				cur = env.sv(sel(env.cur.heap(h, hs), cur.T), f.Type)
+				cur = env.sv(hsel(env.u, env.cur.heap(h, hs), cur.T), f.Type)
 			}
 		} else {
 			cur = env.sv(selOf(f.Sel, cur.T), f.Type)
@@ -489,7 +501,7 @@ func (env *Env) index(v SVal, i SVal) SVal {
 	case *types.Slice:
 		addr := app("saddr", v.T, i.T)
 		h, hs := d.CellHeap(t.Elem())
-		return env.sv(sel(env.cur.heap(h, hs), addr), t.Elem())
+		return env.sv(hsel(env.u, env.cur.heap(h, hs), addr), t.Elem())
 	case *types.Map:
 		val, _ := env.a.mapGet(env.cur, t, v.T, i.T)
 		return env.sv(val, t.Elem())
@@ -696,17 +708,17 @@ func (env *Env) call(x *ECall) SVal {
 		return SVal{T: env.cur.heap(traceLen, "Int"), Typ: tInt, Sort: "Int"}
 	case "tkind":
 		i := env.value(env.eval(x.Args[0]))
-		return SVal{T: sel(env.cur.heap(traceKind, traceSorts[traceKind]), i.T), Typ: tInt, Sort: "Int"}
+		return SVal{T: hsel(env.u, env.cur.heap(traceKind, traceSorts[traceKind]), i.T), Typ: tInt, Sort: "Int"}
 	case "targ0", "targ1":
 		i := env.value(env.eval(x.Args[0]))
 		h := traceArg0
 		if x.Fn == "targ1" {
 			h = traceArg1
 		}
-		return SVal{T: sel(env.cur.heap(h, traceSorts[h]), i.T), Sort: "Ref"}
+		return SVal{T: hsel(env.u, env.cur.heap(h, traceSorts[h]), i.T), Sort: "Ref"}
 	case "terr":
 		i := env.value(env.eval(x.Args[0]))
-		return SVal{T: sel(env.cur.heap(traceErr, traceSorts[traceErr]), i.T), Typ: tBool, Sort: "Bool"}
+		return SVal{T: hsel(env.u, env.cur.heap(traceErr, traceSorts[traceErr]), i.T), Typ: tBool, Sort: "Bool"}
 	case "kind":
 		// kind("Name"): the event kind of a traced callback of the function under verification
 		sname, ok := x.Args[0].(*EStr)
@@ -813,7 +825,7 @@ func (env *Env) call(x *ECall) SVal {
 			return SVal{T: app("iptr", v.T), Typ: t, Sort: d.SortOf(t), AtRef: true}
 		}
 		h, hs := d.CellHeap(t)
-		return env.sv(sel(env.cur.heap(h, hs), app("iptr", v.T)), t)
+		return env.sv(hsel(env.u, env.cur.heap(h, hs), app("iptr", v.T)), t)
 	case "sameElems":
 		// sameElems(xs): the elements of slice xs hold the same values as in the old state
 		v := env.value(env.eval(x.Args[0]))
@@ -826,7 +838,7 @@ func (env *Env) call(x *ECall) SVal {
 		i := fmt.Sprintf("i!q%d", *env.qn)
 		for _, lh := range env.a.elemHeaps(sl.Elem()) {
 			addr := lh.addr(app("saddr", v.T, i))
-			cs = append(cs, eq(sel(env.cur.heap(lh.name, lh.sort), addr), sel(env.old.heap(lh.name, lh.sort), addr)))
+			cs = append(cs, eq(hsel(env.u, env.cur.heap(lh.name, lh.sort), addr), hsel(env.u, env.old.heap(lh.name, lh.sort), addr)))
 		}
 		return b(fmt.Sprintf("(forall ((%s Int)) (=> (and (<= 0 %s) (< %s (slen %s))) %s))", i, i, i, v.T, and(cs...)))
 	}
@@ -894,8 +906,14 @@ func zeroOf(sort string) Term {
 	return "0"
 }
 
-func dmulFn(d *Decls) string { return d.Fun("dmul", []string{"Real", "Real"}, "Real") }
-func ddivFn(d *Decls) string { return d.Fun("ddiv", []string{"Real", "Real"}, "Real") }
+func dmulFn(d *Decls) string {
+	d.used["dmul"] = true
+	return d.Fun("dmul", []string{"Real", "Real"}, "Real")
+}
+func ddivFn(d *Decls) string {
+	d.used["ddiv"] = true
+	return d.Fun("ddiv", []string{"Real", "Real"}, "Real")
+}
 
 // callPure evaluates a loop-free Go function symbolically without obligations or effects.
 func (a *Act) callPure(st *State, fn *ssa.Function, args []Val) Val {
